@@ -23,7 +23,7 @@ RULE = ("one run = one document of a class (pure gfa1 / pure gfa2 / neutral / mi
         "order, flush positions) digests")
 PROBES = ["pure", "neutral", "mixed_content", "mixed_vn", "mixed_param", "mixed_rgfa", "flush_midway",
           "flush_repeated", "queue_nonempty_at_decision", "failing_record_in_queue", "deciding_last",
-          "header_contradiction_offered", "entry_clones"]
+          "header_contradiction_offered", "entry_clones", "entry_header_api"]
 
 OTHER1 = ["S\tzz9\t5\t*", "E\t*\tzz1+\tzz2-\t0\t1\t0\t1\t*", "G\t*\tzz1+\tzz2-\t5\t*", "U\tzz8\tzz1",
           "O\tzz7\tzz1+", "F\tzz1\tr+\t0\t1\t0\t1\t*", "X\tfoo"]
@@ -101,7 +101,7 @@ def gen(streams, tier, i):
         perm = list(range(n)) if mode == "given" else adversarial(sr, lines, mode)
         perm = keep_o_order(lines, perm)
         entry = sr.choice(["list", "str_nl", "incremental", "incremental", "incremental", "file_crlf"] +
-                          (["clones"] if klass == "pure" and vparam is None else []))
+                          (["clones", "header_api"] if klass == "pure" and vparam is None else []))
         flushes = []
         if entry == "incremental":
             for _ in range(sr.choice([0, 0, 1, 2, 3])):
@@ -213,7 +213,35 @@ def run(scn, st):
         if op.get("mode") == "deciding_last":
             st.count("probe.deciding_last")
         w = World(st)
-        if op["entry"] == "clones":
+        if op["entry"] == "header_api":
+            # the version is declared through the header of the still empty Gfa (accessor, set or add) instead of an
+            # H line, then the lines follow: the declared version is the version, and content of the other version
+            # is refused, as after 'H VN:Z:...'
+            st.count("probe.entry_header_api")
+            how = ("attr", "set", "add")[len(perm) % 3]
+            declared = expect if (sum(perm[:2]) % 2 == 0 or any("VN:Z" in ln for ln in lines)) else \
+                ("gfa2" if expect == "gfa1" else "gfa1")
+            vn = "1.0" if declared == "gfa1" else "2.0"
+
+            def deliver_after_header():
+                g_ = gfapy.Gfa(vlevel=cfg["vlevel"], dialect=cfg["dialect"])
+                h_ = g_.header
+                (setattr(h_, "VN", vn) if how == "attr" else (h_.set("VN", vn) if how == "set" else h_.add("VN", vn)))
+                for i_ in perm:
+                    g_.add_line(lines[i_])
+                g_.process_line_queue()
+                return g_
+            o = core.call(deliver_after_header)
+            if declared != expect:
+                st.count("oracle.version")
+                has_specific = any(ln.split("\t")[0] in ("S", "L", "C", "P", "E", "G", "F", "O", "U") for ln in lines)
+                if has_specific and (o.ok or o.excname != "VersionError"):
+                    raise core.Violation("mixed-accepted", "header.VN = %r (%s) on the empty Gfa, then a %s document: %s" %
+                                         (vn, how, expect, "accepted, version %r" % o.value.version if o.ok else "raised " + o.excname),
+                                         klass="header-api-first", entry=how)
+                continue
+            g, errs = (o.value, []) if o.ok else (None, [o])
+        elif op["entry"] == "clones":
             # the document is parsed once; copies of its lines (clone()) are added, in the scheduled order, to a
             # Gfa that knows nothing yet: the content decides the version as it does for text
             st.count("probe.entry_clones")
@@ -286,6 +314,12 @@ def run(scn, st):
                                  (expect, v, perm, op["entry"]), entry=op["entry"])
         st.count("oracle.exactly_once")
         got = canon_u(gtext.canon_doc(ob.text_lines(g), expect))
+        if op["entry"] == "header_api":
+            # (the declaration made through the header is written as an H line of its own)
+            decl = "H\tVN:Z:%s" % ("1.0" if expect == "gfa1" else "2.0")
+            if decl in got and decl not in want:
+                got = list(got)
+                got.remove(decl)
         st.state(digest([got, perm]))
         if got != want:
             extra = [x for x in got if x not in want or got.count(x) > want.count(x)]
